@@ -423,6 +423,7 @@ def _run_instance(c, tree, mod, label, recv, rep, timeout_ms, lookup):
     interp.current_module = mod
     interp.method_disciplines = dict(c.methods)
     interp.prefer_shadow = c.prefer_shadow
+    interp.index_safety = c.index_safety
     for oname, spec in c.opaque.items():
         getter = spec[0]
         try:
